@@ -33,6 +33,10 @@ type C06Params struct {
 	// Glue: every arriving datagram carries its record twice (record || record): the copy must be
 	// recognised although the first has only just been accepted
 	Glue bool `json:"glue,omitempty"`
+	// Import (DTLS 1.2): after the arrival sequence the receiver's state is serialised, its socket
+	// dies, a connection is resumed from the bytes, and every record the receiver had delivered
+	// is presented once more: the session has read those payloads already
+	Import bool `json:"import,omitempty"`
 }
 
 var c06Windows = []int{1, 2, 3, 64}
@@ -103,6 +107,9 @@ func c06Gen(r *rand.Rand, tier string, idx int) any {
 	}
 	if c, _ := dataCfgByName(p.Cfg); c.C.MaxVer == 13 && r.IntN(2) == 0 {
 		p.Updates = 1 + r.IntN(6)
+	}
+	if c, _ := dataCfgByName(p.Cfg); c.C.MaxVer == 12 && r.IntN(6) == 0 {
+		p.Import = true
 	}
 	if r.IntN(4) == 0 {
 		p.Boundary, p.BoundaryOff = 1+r.IntN(2), r.IntN(p.K+1)
@@ -318,6 +325,43 @@ func c06Run(rc *RunCtx, params any) {
 			}
 		}
 		s.Probe("replay-after-key-update-rejected")
+	}
+	if p.Import && cfg.C.MaxVer == 12 {
+		if st, okst := pair.Server.ConnectionState(); okst {
+			raw, merr := st.MarshalBinary()
+			var st2 dtls.State
+			if merr == nil && st2.UnmarshalBinary(raw) == nil {
+				pair.SSock.Sever()
+				if resumed, rerr := dtls.ResumeWithOptions(&st2, n.Rebind("s2", pair.SAddr), pair.CAddr, pair.Env.Shared["s"]...); rerr == nil {
+					var got2 [][]byte
+					s.Go("s2-reader", func() {
+						buf := make([]byte, 8192)
+						for {
+							k, err := resumed.Read(buf)
+							if err != nil {
+								return
+							}
+							got2 = append(got2, append([]byte(nil), buf[:k]...))
+						}
+					})
+					s.Run(func() bool { return false }, 100*time.Millisecond)
+					defer func() { s.Go("s2-close", func() { _ = resumed.Close() }) }()
+					for a := range accepted {
+						if !accepted[a] {
+							continue
+						}
+						n.InjectNow(pair.CAddr, pair.SAddr, append([]byte(nil), n.Captured[a].Data...))
+						s.Settle()
+						if len(got2) != 0 {
+							rc.Violate("replayed:after-import", "record %d, delivered by the receiver before its state was exported, was delivered again by the connection resumed from that state when its datagram was replayed (W=%d)", a, p.W)
+
+							return
+						}
+					}
+					s.Probe("replay-after-import-rejected")
+				}
+			}
+		}
 	}
 	for i, d := range delivered {
 		if d > 1 {
